@@ -139,6 +139,9 @@ theorem jacobianV_rename (π : Nat → Nat) (c : Constraint α) (v : Nat → α)
   | arcLength a d =>
     simp only [Constraint.rename, Constraint.jacobianV, ArcD.rename, Pt.rename, Circ.rename]
     ite_rfl
+  | circleTangentToCircle a b =>
+    simp only [Constraint.rename, Constraint.jacobianV, Pt.rename, Circ.rename]
+    ite_rfl
   | _ => rfl
 /-- All declared ids of the renumbered constraint are the original ones mapped through `π`. -/
 theorem nonzeroes_all_rename (π : Nat → Nat) (c : Constraint α) :
